@@ -185,9 +185,6 @@ impl<Octs> Txt<Octs> {
         Octs: AsRef<[u8]>,
     {
         let len = parser.remaining();
-        if len == 0 {
-            return Err(ParseError::form_error("empty TXT record data"));
-        }
         LongRecordData::check_len(len)?;
         let text = parser.parse_octets(len)?;
         let mut tmp = Parser::from_ref(text.as_ref());
@@ -222,10 +219,12 @@ impl<Octs: AsRef<[u8]> + ?Sized> Txt<Octs> {
 
     /// Returns the content if it consists of a single character string.
     pub fn as_flat_slice(&self) -> Option<&[u8]> {
-        if usize::from(self.0.as_ref()[0]) == self.0.as_ref().len() - 1 {
-            Some(&self.0.as_ref()[1..])
-        } else {
-            None
+        // Data parsed from the wire may be empty.
+        match self.0.as_ref().split_first() {
+            Some((&len, tail)) if usize::from(len) == tail.len() => {
+                Some(tail)
+            }
+            _ => None,
         }
     }
 
